@@ -1,6 +1,7 @@
 (** C15 — property theorems (statements only; proofs by [exact]). *)
 From Coq Require Import ZArith NArith List Bool Sorting.Permutation Sorting.Sorted.
-From RlibV Require Import C15.Model C15.Corr C15.ProofsMasks.
+From RlibV Require Import C15.Model C15.Spec C15.Corr C15.ProofsMasks C15.ProofsMasksEnum C15.ProofsPerm C15.ProofsIter
+  C15.ProofsSmall C15.ProofsNb C15.ProofsCorrPerm C15.ProofsCorrMasks C15.ProofsCorr.
 Import ListNotations.
 
 (** ** masks *)
@@ -43,3 +44,103 @@ Proof. exact supermasks_enumeration. Qed.
 Theorem c15_masks_terminate : forall w x : N, (w <= 128 -> x < 2 ^ w ->
   iter_submasks w x <> None /\ iter_supermasks w x <> None)%N.
 Proof. exact masks_terminate. Qed.
+
+(** the iterators' output, explicitly: all w-bit values in descending (ascending) order, filtered by the
+    submask (supermask) test — [all_below w] is [0; 1; ...; 2^w - 1] *)
+Theorem c15_submasks_filter : forall w x : N, (w <= 128 -> x < 2 ^ w ->
+  iter_submasks w x = Some (filter (fun u => N.land u x =? u) (rev (all_below w))))%N.
+Proof. exact submasks_filter. Qed.
+
+Theorem c15_supermasks_filter : forall w x : N, (w <= 128 -> x < 2 ^ w ->
+  iter_supermasks w x = Some (filter (fun u => (N.land u x =? x) && (u <? 2 ^ w)) (all_below w)))%N.
+Proof. exact supermasks_filter. Qed.
+
+Open Scope Z_scope.
+
+(** ** permutations (sequences may contain repeated elements) *)
+
+(** the slice after the call is a rearrangement of the slice before *)
+Theorem c15_next_perm_is_permutation : forall d : list Z, Permutation d (snd (next_permutation d)).
+Proof. exact next_perm_is_permutation. Qed.
+
+(** when it returns true the new sequence is lexicographically strictly greater *)
+Theorem c15_next_perm_greater : forall d : list Z,
+  fst (next_permutation d) = true -> lex_lt d (snd (next_permutation d)).
+Proof. exact next_perm_greater. Qed.
+
+(** ... and it is the lexicographic successor: no arrangement of the same elements lies strictly between *)
+Theorem c15_next_perm_minimal : forall d : list Z, fst (next_permutation d) = true ->
+  forall p : list Z, Permutation d p -> ~ (lex_lt d p /\ lex_lt p (snd (next_permutation d))).
+Proof. exact next_perm_minimal. Qed.
+
+(** it returns false exactly on non-increasing input (the last arrangement), and then leaves the reversed = sorted
+    (non-decreasing) sequence *)
+Theorem c15_next_perm_wrap : forall d : list Z,
+  (fst (next_permutation d) = false <-> StronglySorted Z.ge d) /\
+  (StronglySorted Z.ge d ->
+     snd (next_permutation d) = rev d /\ StronglySorted Z.le (snd (next_permutation d)) /\
+     snd (next_permutation d) = sort d).
+Proof. exact next_perm_wrap_full. Qed.
+
+(** iter_permutations terminates within its fuel for every input; the output starts with the sorted data, is strictly
+    increasing lexicographically (so no arrangement is listed twice) and contains exactly the arrangements of the input *)
+Theorem c15_iter_permutations : forall d : list Z,
+  exists l, iter_permutations d = Some l /\ StronglySorted lex_lt l /\
+            (forall p, In p l <-> Permutation d p) /\ NoDup l /\ hd [] l = sort d.
+Proof. exact iter_permutations_ok. Qed.
+
+(** the characterisation determines the output *)
+Theorem c15_sorted_listing_unique : forall l1 l2 : list (list Z),
+  StronglySorted lex_lt l1 -> StronglySorted lex_lt l2 -> (forall u, In u l1 <-> In u l2) -> l1 = l2.
+Proof. exact ssorted_lex_unique. Qed.
+
+(** by computation, for all 3280 sequences over a 3-letter alphabet of length at most 7: iter_permutations equals the
+    directly enumerated list of distinct arrangements, and next_permutation the element following its input there
+    (wrapping to the first with result false) *)
+Theorem c15_iter_permutations_small : forallb iter_matches (seqs_upto [0; 1; 2] 7) = true.
+Proof. exact iter_permutations_small. Qed.
+Theorem c15_next_permutation_small : forallb next_matches (seqs_upto [0; 1; 2] 7) = true.
+Proof. exact next_permutation_small. Qed.
+
+(** ** neighbours: the fixed cell order filtered by the bounds; membership; no repetition *)
+Theorem c15_neighbours_4 : forall n m i j : Z,
+  iter_neighbours_4 n m i j = filter (in_grid n m) [(i, j + 1); (i - 1, j); (i, j - 1); (i + 1, j)] /\
+  (forall a b, In (a, b) (iter_neighbours_4 n m i j) <->
+               0 <= a < n /\ 0 <= b < m /\ Z.abs (a - i) + Z.abs (b - j) = 1) /\
+  NoDup (iter_neighbours_4 n m i j).
+Proof. exact nb4_full. Qed.
+
+Theorem c15_neighbours_4d : forall n m i j : Z,
+  iter_neighbours_4d n m i j = filter (in_grid n m) [(i - 1, j + 1); (i - 1, j - 1); (i + 1, j - 1); (i + 1, j + 1)] /\
+  (forall a b, In (a, b) (iter_neighbours_4d n m i j) <->
+               0 <= a < n /\ 0 <= b < m /\ Z.abs (a - i) = 1 /\ Z.abs (b - j) = 1) /\
+  NoDup (iter_neighbours_4d n m i j).
+Proof. exact nb4d_full. Qed.
+
+Theorem c15_neighbours_8 : forall n m i j : Z,
+  iter_neighbours_8 n m i j = filter (in_grid n m) [(i, j + 1); (i - 1, j + 1); (i - 1, j); (i - 1, j - 1);
+                                                     (i, j - 1); (i + 1, j - 1); (i + 1, j); (i + 1, j + 1)] /\
+  (forall a b, In (a, b) (iter_neighbours_8 n m i j) <->
+               0 <= a < n /\ 0 <= b < m /\ Z.max (Z.abs (a - i)) (Z.abs (b - j)) = 1) /\
+  NoDup (iter_neighbours_8 n m i j).
+Proof. exact nb8_full. Qed.
+
+(** ** further consequences *)
+
+(** the number of items: 2^popcount(x) submasks, 2^(w - popcount(x)) supermasks *)
+Theorem c15_submasks_count : forall w x : N, (w <= 128 -> x < 2 ^ w ->
+  exists l, iter_submasks w x = Some l /\ N.of_nat (length l) = 2 ^ popcount x)%N.
+Proof. exact submasks_count. Qed.
+Theorem c15_supermasks_count : forall w x : N, (w <= 128 -> x < 2 ^ w ->
+  exists l, iter_supermasks w x = Some l /\ N.of_nat (length l) = 2 ^ (w - popcount x))%N.
+Proof. exact supermasks_count. Qed.
+
+(** iter_permutations is, for every input, the directly enumerated list of distinct arrangements of Corr.v
+    (first element chosen among the distinct values in increasing order, recursively) *)
+Theorem c15_iter_permutations_enumerated : forall d : list Z, iter_permutations d = Some (all_arrangements d).
+Proof. exact iter_permutations_all_arrangements. Qed.
+
+(** on in-scope cases (mask width at most 128) an observation that agrees with the model satisfies the brute-force
+    specification of Corr.v: the batch lemma about the model carries the specification to the implementation by proof *)
+Theorem c15_model_implies_spec : forall c : case, in_scope c -> model_check c = true -> spec_check c = true.
+Proof. exact model_implies_spec. Qed.
